@@ -27,6 +27,14 @@ NA = {
 }
 
 CHECKS = {
+    "C13": {
+        "engine": "simsched",
+        "technique": "deterministic simulation: seeded baton-passing thread scheduler over real threads (statement-level pre-emption, SimLock), query histories with cache-aliasing keys; oracle = the same query evaluated alone in a fresh process, plus stated object identities",
+        "category": "exploration",
+        "text": "Seeded search over query histories and thread schedules against every shared cache and lazy singleton reachable from the public API (year-start caches, the global Hebrew cache, the 512-slot zone-interval cache, the provider's lazy zone map, provider/UTC/calendar/era singletons, the format-info cache with a shrunken size knob, per-format-info lazy tables and pattern caches, culture tables, thread-local current culture). Keys are generated to alias (years 1024 apart, 32-day periods 512 apart, more cultures than cache slots). Every answer of every run is compared with the answer of the same query evaluated alone in a fresh fork (empty history, single thread); zone-interval answers are additionally compared with the underlying (uncached) zone; identities promised by the statement are checked across all objects a run obtained; deadlocks are detected exactly. Sampling, not proof.",
+        "note": "Trusted: CPython thread/trace machinery; cold single-threaded evaluation as reference. Pre-emption only between statements and at lock operations; four pure decoding/helper files are not pre-emption points (partial-order reduction, DESIGN.md 3.1). Races inside C code (dict, ICU) are out of reach.",
+        "ref": "DESIGN.md section 4 (C13), 3.1",
+    },
     "C20": {
         "engine": "simio",
         "technique": "deterministic fault injection on the input stream: enumerated truncation points + seeded k<=4 byte substitute/insert/delete plans over the real database files; exception-type oracle, sys.monitoring work budget, memory limit",
